@@ -37,7 +37,11 @@ class MemWorld(World):
         veh0 = mk_vehicle(env, rn, "v0", S["N1"], "quiet", energy=0.5, fleets=MEMBERSHIPS[v0])  # low: the charging manager speaks
         veh1 = mk_vehicle(env, rn, "v1", S["X1"], "quiet", soc=0.5, fleets=MEMBERSHIPS[v1])
         h0 = mk_vehicle(env, rn, "h0", S["N2"], "quiet", soc=0.5, fleets=("f1",), schedule_id="never", home_base_id="hb").add_membership(priv)
-        self.starts = {"init": build_sim(env, rn, vehicles=(veh0, veh1, h0), stations=(st0, stb), bases=(base0, hb))}
+        # a second driver who names the SAME home base: initialisation lets the last driver's private id overwrite the others', so
+        # the base carries h0's id only and h1 -- although it is "his" home -- is not granted access to it; he stands on its cell,
+        # off shift, and his own go-home logic asks for a stall there every step
+        h1 = mk_vehicle(env, rn, "h1", S["N2"], "quiet", soc=0.5, fleets=("f1",), schedule_id="never", home_base_id="hb").add_membership("h1_private_hb")
+        self.starts = {"init": build_sim(env, rn, vehicles=(veh0, veh1, h0, h1), stations=(st0, stb), bases=(base0, hb))}
         self.request_specs = {"r0": {"origin": S["N2"], "destination": S["M2"], "fleet_id": r0}}
         per_vehicle = [("Idle",), ("DispatchTrip", "r0"), ("DispatchStation", "s0", "DCFC"), ("ChargeStation", "s0", "DCFC"),
                        ("DispatchBase", "b0"), ("ReserveBase", "b0"), ("ChargeBase", "b0", "LEVEL_2"),
